@@ -27,6 +27,7 @@ pub fn init() {
 
 mod proj;
 mod walk;
+mod replay;
 
 fn main() {
     // Panics inside the code under test are data: keep the default hook quiet and let
@@ -42,6 +43,7 @@ fn main() {
     let rest = &args[2..];
     let code = match args[1].as_str() {
         "walk" => walk::main(rest),
+        "replay-positions" => replay::positions(rest),
         other => {
             eprintln!("unknown subcommand {other}");
             2
